@@ -1,10 +1,1028 @@
-//! C18 — (stub; filled in during the build phase)
+//! C18 — a failing generator is reported, never fatal, and never half-trusted (fault enumeration, engine E3).
+//!
+//! Statement: whatever a generator does - cannot be started, exits non-zero, is killed by a signal, writes to
+//! stderr, closes stdin early, or replies with empty, truncated or undecodable data - the compiler reports an error
+//! naming that generator, still runs and honours the other generators, exits non-zero and neither crashes nor
+//! hangs.  All generators receive the identical request followed by their own arguments; files are written only
+//! from a successfully decoded reply (relative paths are placed below the output directory), and a file whose
+//! content is already identical is left untouched.
+//!
+//! Every case is one run of the real `slicec` binary with 1..3 scripted fake generators (`proc.rs`, `fakegen`).
+//! The expected verdict of a generator comes from a boring model: it FAILS if it cannot be started, ends with a
+//! status other than 0 or by a signal, writes to stderr, does not read its whole stdin, or if the independent
+//! reference decoder (`refcodec`) cannot decode its stdout as a reply; it is HEALTHY if the reference decoder
+//! consumes its stdout exactly.
+//!
+//! Where the statement is open the oracle accepts every behaviour that is consistent in itself (each softening
+//! is marked `SOFT` below):
+//!   SOFT-1  valid reply followed by trailing bytes: the statement does not say whether that is "successfully
+//!           decoded".  Accepted: either (no error naming the generator, its files written) or (exactly one
+//!           error naming it, none of its files written).
+//!   SOFT-2  a reply file whose directory does not exist (output directory missing, output directory is a
+//!           regular file, nested path below a missing directory): the statement does not say whether slicec
+//!           creates directories.  Accepted: the file exists with the bytes sent, or an error diagnostic
+//!           mentions the file's path and the exit status is non-zero.  Silent loss is a violation.
+//!   SOFT-3  an absolute path in a reply: the statement only places *relative* paths.  For a trusted reply
+//!           nothing is demanded about where (or whether) such a file is written, as long as any failure is
+//!           reported through an error mentioning the path; for a failed generator the absolute target must stay
+//!           untouched like every other file ("written only from a successfully decoded reply").
+//!   SOFT-4  a generator that does not read its stdin cannot be detected when the whole request fits the pipe
+//!           buffer, so the rows "exits without reading" / "reads half" send NO reply when the request is small
+//!           (they fail anyway: empty reply or EPIPE, the oracle does not care which); the row "does not read but
+//!           sends a valid reply" exists only with a request larger than the pipe buffer, where slicec's write
+//!           must fail (EPIPE) and the statement demands an error naming the generator.
+//!   SOFT-5  errors about a file that could not be written need not name the generator (the statement demands
+//!           that only for generator faults); they must mention the file path.  A line "names" a generator if it
+//!           contains the generator's file name (the path as spelled on the command line contains it).
+//!   SOFT-6  diagnostics sent inside a healthy reply are not checked (the statement says nothing about them); the
+//!           catalogue sends only Info/Warning levels.
+//! Not softened: number of errors per failed generator (exactly one), every startable generator started exactly
+//! once, identical request bytes, exit status, files of failed generators absent/untouched, identical file keeps
+//! inode and mtime, nothing else in the directory changes.
 
 use super::PropMeta;
 use crate::engine::*;
+use crate::proc::{self, Gen, Install, Kind, Node, RDiag, RFile, Scenario, Scratch, Script, Step};
+use crate::util::*;
+use serde_json::{json, Value};
+use std::sync::OnceLock;
+use std::time::Duration;
 
-pub fn meta(_m: &mut PropMeta) {}
+pub fn meta(m: &mut PropMeta) {
+    m.level = "fault_enumeration";
+    m.rule = "every case = one run of the real slicec binary (private directory, watchdog 10 s) with 1..3 scripted fake generators drawn from the behaviour catalogue B (24 rows: ok with 0/1/3 files, ok + early close of stdout, missing executable, not executable, exit 1 after a valid reply, exit 255, SIGKILL after a valid reply, SIGSEGV, stderr output + valid reply + exit 0, exits without reading stdin, reads half of stdin then exits, empty reply, invalid bool, invalid UTF-8, bad diagnostic level, 2^62-1 string size, 2^28 announced entries, valid reply + trailing bytes, ./relative path, nested path below an existing / a missing directory, absolute path) plus truncation of a valid 2-file/2-diagnostic reply at EVERY byte, plus three single-generator rows that combine listed behaviours with more data than a pipe buffer holds (healthy with a 100 000 byte file; the same reply written BEFORE stdin is read; 100 000 bytes of stderr without reading stdin, exit 3). Families: one generator (all of B + all truncations, each with no delay and with a 50 ms delay before read / before reply / before exit); two generators (B x B; delay deviations: at most one 50 ms delay point in the run); three generators (B8^3 over the 8 most distinct rows); output-directory states {no -O, -O existing, -O missing, -O is a regular file, file already identical, file different, identical/different in the cwd without -O} for the rows whose reply names files, alone and next to a neighbour, both orders; request larger than the 64 KiB pipe buffer (big input file) for all rows alone and the non-reading rows next to B8 neighbours; every truncation next to a neighbour. Oracle from the statement with a reference decoder deciding which replies are valid: no signal / panic / hang; exactly one error line naming each failed generator and none naming a healthy one; every startable generator started exactly once and (if it reads stdin) received request ++ its own encoded arguments with the request byte-identical across the run; exit status != 0 iff an error was emitted, and != 0 if some generator failed; files of healthy replies exist below the output directory with the bytes sent; files named by failed generators are absent / untouched; a pre-existing identical file keeps inode and mtime; nothing else changes. non-trivial = at least one generator is not a plain healthy row, or the output state / payload / schedule deviates from the plain one; distinct = distinct rendered scenarios; outcome class = (exit status, error lines per generator, other error lines, started mask, paths changed).";
+    m.explanation = "fault enumeration at process level: the fault sequence of every generator child (start failure, exit status, signal, stderr, early close of stdin, every truncation and corruption class of the reply) is scripted and enumerated as a complete product, with explicit delay points as bounded schedule deviations";
+    m.quick_bound = "1 generator: all 24 rows + every truncation x 4 delay variants + 3 large-data rows; 2 generators: 24 x 24 (+ <=1 delay deviation over 8 x 8); 3 generators: 8^3; output states: 11 rows x 8 states alone and with 2 neighbours; big payload: 25 + 3 rows alone + 48 pairs; truncations next to a healthy neighbour";
+    m.thorough_bound = "as quick, plus: <=1 delay deviation on all 24 x 24 pairs and all 8^3 triples; 24 x 24 pairs and 8^3 triples in all 8 output states; output states x 8 neighbours x both orders; delay deviations on the big-payload rows; every truncation next to each of 8 neighbours in both orders";
+    m.quick_cap_s = 60.0;
+    m.thorough_cap_s = 600.0;
+}
 
-pub fn families(_tier: &str) -> Vec<Box<dyn Family>> {
-    vec![]
+// ------------------------------------------------------------------------------------------------------------
+// Behaviour catalogue
+
+#[derive(Clone, Copy, Debug, PartialEq)]
+enum B {
+    Ok0,
+    Ok1,
+    Ok3,
+    OkCloseEarly,
+    Missing,
+    NotExec,
+    Exit1,
+    Exit255,
+    SigKill,
+    SigSegv,
+    StderrExit0,
+    NoRead,
+    Half,
+    EmptyReply,
+    BadBool,
+    BadUtf8,
+    BadLevel,
+    HugeSize,
+    HugeCount,
+    Trailing,
+    DotRel,
+    NestedExisting,
+    NestedMissing,
+    Absolute,
+    /// only with the big payload (SOFT-4)
+    NoReadReplyOk,
+    /// healthy, but the reply (one 100 000 byte file) is larger than the pipe buffer
+    OkBigReply,
+    /// like OkBigReply, but the reply is written BEFORE stdin is read (everything is read afterwards)
+    BigReplyBeforeRead,
+    /// writes 100 000 bytes to stderr without reading stdin, then exits 3
+    NoReadBigStderr,
+    /// the truncation base reply cut to its first k bytes
+    Trunc(usize),
+}
+
+const B_ALL: [B; 24] = [
+    B::Ok0,
+    B::Ok1,
+    B::Ok3,
+    B::OkCloseEarly,
+    B::Missing,
+    B::NotExec,
+    B::Exit1,
+    B::Exit255,
+    B::SigKill,
+    B::SigSegv,
+    B::StderrExit0,
+    B::NoRead,
+    B::Half,
+    B::EmptyReply,
+    B::BadBool,
+    B::BadUtf8,
+    B::BadLevel,
+    B::HugeSize,
+    B::HugeCount,
+    B::Trailing,
+    B::DotRel,
+    B::NestedExisting,
+    B::NestedMissing,
+    B::Absolute,
+];
+
+fn b8() -> [B; 8] {
+    [B::Ok1, B::Ok3, B::Missing, B::Exit1, B::SigKill, B::StderrExit0, B::NoRead, B::Trunc(trunc_len() / 2)]
+}
+
+/// Rows that combine listed faults with amounts of data larger than the pipe buffer (one generator only).
+const B_LARGE: [B; 3] = [B::OkBigReply, B::BigReplyBeforeRead, B::NoReadBigStderr];
+
+/// Rows whose reply names files (whether the reply is to be trusted or not).
+const B_WRITING: [B; 11] = [B::Ok1, B::Ok3, B::OkCloseEarly, B::Exit1, B::SigKill, B::StderrExit0, B::Trailing, B::DotRel, B::NestedExisting, B::NestedMissing, B::Absolute];
+
+#[derive(Clone, Copy, Debug, PartialEq)]
+enum ReadMode {
+    All,
+    Nothing,
+    Half,
+}
+
+#[derive(Clone, Copy, Debug, PartialEq)]
+enum End {
+    Exit(i32),
+    Kill(i32),
+}
+
+#[derive(Clone, Copy, Debug, PartialEq)]
+enum Verdict {
+    Healthy,
+    Fail,
+    /// SOFT-1
+    Open,
+}
+
+#[derive(Clone, Copy, Debug, PartialEq)]
+enum Installed {
+    Scripted,
+    Missing,
+    NotExecutable,
+}
+
+struct Spec {
+    row: String,
+    fault: &'static str,
+    installed: Installed,
+    read: ReadMode,
+    reply: Vec<u8>,
+    stderr: Vec<u8>,
+    close_early: bool,
+    /// the reply is written before stdin is read
+    reply_first: bool,
+    end: End,
+    /// files named by the reply, as far as the harness knows them
+    files: Vec<RFile>,
+    verdict: Verdict,
+}
+
+const GEN_NAMES: [&str; 3] = ["fakegen_alpha", "fakegen_bravo", "fakegen_charlie"];
+
+fn gen_args(gi: usize) -> Vec<(String, String)> {
+    match gi {
+        0 => vec![],
+        1 => vec![("k".to_string(), "v".to_string())],
+        _ => vec![("x".to_string(), "".to_string()), ("lang".to_string(), "c#, v=2".to_string())],
+    }
+}
+
+fn trunc_base(gi: usize) -> (Vec<RFile>, Vec<RDiag>) {
+    (
+        vec![proc::rfile(&format!("f{gi}_t1.txt"), "one\n"), proc::rfile(&format!("f{gi}_t2.txt"), "two\n")],
+        vec![RDiag { level: 1, message: "w".into(), source: Some("s".into()) }, RDiag { level: 0, message: "i".into(), source: None }],
+    )
+}
+
+fn trunc_len() -> usize {
+    let (f, d) = trunc_base(0);
+    proc::encode_reply(&f, &d).len()
+}
+
+/// `work` is the absolute work directory (or the literal "{work}" when only describing).
+fn spec(b: B, gi: usize, work: &str) -> Spec {
+    let one = |suffix: &str| vec![proc::rfile(&format!("f{gi}_{suffix}.txt"), &format!("generated by generator {gi} ({suffix})\n"))];
+    let mut s = Spec {
+        row: format!("{b:?}"),
+        fault: "healthy",
+        installed: Installed::Scripted,
+        read: ReadMode::All,
+        reply: vec![],
+        stderr: vec![],
+        close_early: false,
+        reply_first: false,
+        end: End::Exit(0),
+        files: vec![],
+        verdict: Verdict::Healthy,
+    };
+    let valid = |files: &[RFile]| proc::encode_reply(files, &[]);
+    match b {
+        B::Ok0 => s.reply = valid(&[]),
+        B::Ok1 => {
+            s.files = one("ok1");
+            s.reply = valid(&s.files);
+        }
+        B::Ok3 => {
+            s.files = vec![
+                proc::rfile(&format!("f{gi}_a.txt"), "alpha\n"),
+                proc::rfile(&format!("f{gi}_b.txt"), ""),
+                proc::rfile(&format!("f{gi}_c.txt"), "gamma: \u{e9}\u{4e16}\u{1F600}\nline 2\n"),
+            ];
+            s.reply = proc::encode_reply(
+                &s.files,
+                &[RDiag { level: 0, message: format!("info from generator {gi}"), source: Some("a.slice".into()) }, RDiag { level: 1, message: format!("warning from generator {gi}"), source: None }],
+            );
+        }
+        B::OkCloseEarly => {
+            s.files = one("early");
+            s.reply = valid(&s.files);
+            s.close_early = true;
+        }
+        B::Missing => {
+            s.installed = Installed::Missing;
+            s.fault = "cannot-start";
+        }
+        B::NotExec => {
+            s.installed = Installed::NotExecutable;
+            s.fault = "cannot-start";
+        }
+        B::Exit1 => {
+            s.files = one("exit1");
+            s.reply = valid(&s.files);
+            s.end = End::Exit(1);
+            s.fault = "exit-status";
+        }
+        B::Exit255 => {
+            s.end = End::Exit(255);
+            s.fault = "exit-status";
+        }
+        B::SigKill => {
+            s.files = one("sigkill");
+            s.reply = valid(&s.files);
+            s.end = End::Kill(libc::SIGKILL);
+            s.fault = "signal";
+        }
+        B::SigSegv => {
+            s.end = End::Kill(libc::SIGSEGV);
+            s.fault = "signal";
+        }
+        B::StderrExit0 => {
+            s.files = one("stderr");
+            s.reply = valid(&s.files);
+            s.stderr = b"complaint written by the child process on its standard error stream\n".to_vec();
+            s.fault = "stderr-output";
+        }
+        B::NoRead => {
+            s.read = ReadMode::Nothing;
+            s.fault = "stdin-not-read";
+        }
+        B::Half => {
+            s.read = ReadMode::Half;
+            s.fault = "stdin-not-read";
+        }
+        B::NoReadReplyOk => {
+            s.read = ReadMode::Nothing;
+            s.files = one("noread");
+            s.reply = valid(&s.files);
+            s.fault = "stdin-not-read";
+        }
+        B::OkBigReply | B::BigReplyBeforeRead => {
+            let line = format!("// generator {gi} big file line\n");
+            s.files = vec![proc::rfile(&format!("f{gi}_big.txt"), &line.repeat(100_000 / line.len() + 1))];
+            s.reply = valid(&s.files);
+            s.reply_first = b == B::BigReplyBeforeRead;
+            if s.reply_first {
+                s.fault = "healthy-but-replies-before-reading";
+            }
+        }
+        B::NoReadBigStderr => {
+            s.read = ReadMode::Nothing;
+            s.stderr = "a long complaint of the child process on its standard error stream\n".repeat(1500).into_bytes();
+            s.end = End::Exit(3);
+            s.fault = "stdin-not-read";
+        }
+        B::EmptyReply => s.fault = "undecodable-reply",
+        B::BadBool => {
+            s.files = one("badbool");
+            let mut r = proc::enc_size(1);
+            r.extend(proc::enc_str(&s.files[0].path));
+            r.extend(proc::enc_str(&s.files[0].contents));
+            r.push(proc::TAG_END);
+            r.extend(proc::enc_size(1));
+            r.push(2); // bit sequence / bool byte that is neither 0 nor 1
+            r.push(0);
+            r.extend(proc::enc_str("m"));
+            r.push(proc::TAG_END);
+            s.reply = r;
+            s.fault = "undecodable-reply";
+        }
+        B::BadLevel => {
+            s.files = one("badlevel");
+            let mut r = proc::enc_size(1);
+            r.extend(proc::enc_str(&s.files[0].path));
+            r.extend(proc::enc_str(&s.files[0].contents));
+            r.push(proc::TAG_END);
+            r.extend(proc::enc_size(1));
+            r.push(0);
+            r.push(3); // DiagnosticLevel has the values 0..=2
+            r.extend(proc::enc_str("m"));
+            r.push(proc::TAG_END);
+            s.reply = r;
+            s.fault = "undecodable-reply";
+        }
+        B::BadUtf8 => {
+            let mut r = proc::enc_size(1);
+            r.extend(proc::enc_raw_str(&[b'f', b'0' + gi as u8, 0xFF, 0xFE, b'.', b't']));
+            r.extend(proc::enc_str("x"));
+            r.push(proc::TAG_END);
+            r.extend(proc::enc_size(0));
+            s.reply = r;
+            s.fault = "undecodable-reply";
+        }
+        B::HugeSize => {
+            // one file whose path announces 2^62-1 bytes (all ones: also "-1" for a decoder that reads it signed)
+            let mut r = proc::enc_size(1);
+            r.extend([0xFFu8; 8]);
+            r.extend(b"abc");
+            s.reply = r;
+            s.fault = "undecodable-reply";
+        }
+        B::HugeCount => {
+            s.files = one("hugecount");
+            let mut r = proc::enc_size(1);
+            r.extend(proc::enc_str(&s.files[0].path));
+            r.extend(proc::enc_str(&s.files[0].contents));
+            r.push(proc::TAG_END);
+            r.extend(proc::enc_size(1 << 28)); // 2^28 diagnostics announced, none sent
+            s.reply = r;
+            s.fault = "undecodable-reply";
+        }
+        B::Trailing => {
+            s.files = one("trailing");
+            s.reply = valid(&s.files);
+            s.reply.extend_from_slice(&[0x00, 0x41, 0xFC]);
+            s.fault = "trailing-bytes";
+        }
+        B::DotRel => {
+            s.files = vec![proc::rfile(&format!("./f{gi}_dot.txt"), "dot relative\n")];
+            s.reply = valid(&s.files);
+        }
+        B::NestedExisting => {
+            s.files = vec![proc::rfile(&format!("pre/f{gi}_nested.txt"), "nested below an existing directory\n")];
+            s.reply = valid(&s.files);
+        }
+        B::NestedMissing => {
+            s.files = vec![proc::rfile(&format!("nope/deeper/f{gi}_nested.txt"), "nested below a missing directory\n")];
+            s.reply = valid(&s.files);
+        }
+        B::Absolute => {
+            s.files = vec![proc::rfile(&format!("{work}/abs/f{gi}_abs.txt"), "absolute path\n")];
+            s.reply = valid(&s.files);
+        }
+        B::Trunc(k) => {
+            let (f, d) = trunc_base(gi);
+            let full = proc::encode_reply(&f, &d);
+            s.reply = full[..k.min(full.len())].to_vec();
+            s.files = f;
+            s.fault = "truncated-reply";
+        }
+    }
+    // The model verdict (see the module comment).
+    s.verdict = if s.installed != Installed::Scripted || s.end != End::Exit(0) || !s.stderr.is_empty() || s.read != ReadMode::All {
+        Verdict::Fail
+    } else {
+        match proc::decode_reply(&s.reply) {
+            None => Verdict::Fail,
+            Some((files, _, used)) if used == s.reply.len() => {
+                assert_eq!(files, s.files, "catalogue row {b:?}: reference decoder disagrees with the builder");
+                Verdict::Healthy
+            }
+            Some(_) => Verdict::Open,
+        }
+    };
+    s
+}
+
+// ------------------------------------------------------------------------------------------------------------
+// Scenario dimensions
+
+#[derive(Clone, Copy, Debug, PartialEq)]
+enum St {
+    /// no -O: files go to the working directory
+    NoDashO,
+    /// -O out, directory exists and is empty
+    Exists,
+    /// -O out, nothing there
+    MissingDir,
+    /// -O out, `out` is a regular file
+    IsFile,
+    /// -O out, every file named by a reply already exists with identical contents
+    Identical,
+    /// -O out, every file named by a reply already exists with different contents
+    Different,
+    CwdIdentical,
+    CwdDifferent,
+}
+
+const ALL_STATES: [St; 8] = [St::NoDashO, St::Exists, St::MissingDir, St::IsFile, St::Identical, St::Different, St::CwdIdentical, St::CwdDifferent];
+
+impl St {
+    fn dash_o(self) -> bool {
+        !matches!(self, St::NoDashO | St::CwdIdentical | St::CwdDifferent)
+    }
+}
+
+#[derive(Clone, Debug, PartialEq)]
+struct CaseSpec {
+    gens: Vec<B>,
+    st: St,
+    big: bool,
+    /// (generator index, delay point 0 = before read, 1 = before reply, 2 = before exit)
+    delay: Option<(usize, usize)>,
+}
+
+const SMALL_INPUT: &str = "module Small\nstruct S { a: int32 }\n";
+
+fn big_input() -> &'static String {
+    static BIG: OnceLock<String> = OnceLock::new();
+    BIG.get_or_init(|| {
+        // ~170 KiB of request: 320 structs, each with a doc comment of about 500 characters
+        let mut s = String::from("module Big\n");
+        for i in 0..320 {
+            s.push_str("///");
+            for _ in 0..55 {
+                s.push_str(&format!(" word{i:04}"));
+            }
+            s.push('\n');
+            s.push_str(&format!("struct S{i:04} {{ a: int32, b: string }}\n"));
+        }
+        s
+    })
+}
+
+/// Length of the request slicec sends for the small / big input (learned once per process from a probe run with
+/// a healthy generator without arguments); used only to size the "reads half" row.
+fn request_len(big: bool) -> usize {
+    static SMALL: OnceLock<usize> = OnceLock::new();
+    static BIGL: OnceLock<usize> = OnceLock::new();
+    let cell = if big { &BIGL } else { &SMALL };
+    *cell.get_or_init(|| {
+        let c = CaseSpec { gens: vec![B::Ok0], st: St::NoDashO, big, delay: None };
+        let scratch = Scratch::new();
+        let (sc, _) = scenario(&c, &scratch.work().display().to_string(), 0);
+        let obs = proc::run_in(&scratch, &sc, Duration::from_secs(30));
+        match obs.gens[0].stdin.as_ref() {
+            Some(s) if s.len() > 1 => s.len() - 1, // minus the empty argument dictionary
+            _ => {
+                if big {
+                    140_000
+                } else {
+                    120
+                }
+            }
+        }
+    })
+}
+
+fn target_rel(st: St, path: &str, work: &str) -> (String, bool) {
+    // (path relative to the work directory, is_absolute)
+    if let Some(rest) = path.strip_prefix(&format!("{work}/")) {
+        return (rest.to_string(), true);
+    }
+    let p = path.strip_prefix("./").unwrap_or(path);
+    if st.dash_o() {
+        (format!("out/{p}"), false)
+    } else {
+        (p.to_string(), false)
+    }
+}
+
+/// Build the scenario; `half_total` = request length to use for the "reads half" rows (0 while describing).
+fn scenario(c: &CaseSpec, work: &str, req_len: usize) -> (Scenario, Vec<Spec>) {
+    let specs: Vec<Spec> = c.gens.iter().enumerate().map(|(gi, b)| spec(*b, gi, work)).collect();
+    let mut tree: Vec<(String, Node)> = vec![];
+    let input = if c.big { "big.slice" } else { "a.slice" };
+    tree.push((input.to_string(), Node::File(if c.big { big_input().clone().into_bytes() } else { SMALL_INPUT.as_bytes().to_vec() })));
+    tree.push(("abs".to_string(), Node::Dir));
+    match c.st {
+        St::NoDashO | St::CwdIdentical | St::CwdDifferent => tree.push(("pre".to_string(), Node::Dir)),
+        St::Exists | St::Identical | St::Different => {
+            tree.push(("out".to_string(), Node::Dir));
+            tree.push(("out/pre".to_string(), Node::Dir));
+        }
+        St::MissingDir => {}
+        St::IsFile => tree.push(("out".to_string(), Node::File(b"this is a regular file, not a directory\n".to_vec()))),
+    }
+    if matches!(c.st, St::Identical | St::Different | St::CwdIdentical | St::CwdDifferent) {
+        for s in &specs {
+            for f in &s.files {
+                let (rel, _) = target_rel(c.st, &f.path, work);
+                let contents = if matches!(c.st, St::Identical | St::CwdIdentical) { f.contents.clone().into_bytes() } else { format!("old contents of {rel}\n").into_bytes() };
+                tree.push((rel, Node::File(contents)));
+            }
+        }
+    }
+    let mut argv = vec![input.to_string()];
+    let mut gens = vec![];
+    for (gi, s) in specs.iter().enumerate() {
+        let delay = |point: usize| c.delay == Some((gi, point));
+        let install = match s.installed {
+            Installed::Missing => Install::Missing,
+            Installed::NotExecutable => Install::NotExecutable,
+            Installed::Scripted => {
+                let mut steps = vec![];
+                if delay(0) {
+                    steps.push(Step::Sleep(50));
+                }
+                if s.reply_first {
+                    steps.push(Step::Stdout(s.reply.clone()));
+                }
+                match s.read {
+                    ReadMode::All => steps.push(Step::ReadAll),
+                    ReadMode::Nothing => {}
+                    ReadMode::Half => steps.push(Step::Read((req_len + proc::encode_arguments(&gen_args(gi)).len()) / 2)),
+                }
+                if delay(1) {
+                    steps.push(Step::Sleep(50));
+                }
+                if !s.reply.is_empty() && !s.reply_first {
+                    steps.push(Step::Stdout(s.reply.clone()));
+                }
+                if !s.stderr.is_empty() {
+                    steps.push(Step::Stderr(s.stderr.clone()));
+                }
+                if s.close_early {
+                    steps.push(Step::CloseStdout);
+                    steps.push(Step::Sleep(5));
+                }
+                if delay(2) {
+                    steps.push(Step::Sleep(50));
+                }
+                steps.push(match s.end {
+                    End::Exit(code) => Step::Exit(code),
+                    End::Kill(sig) => Step::Kill(sig),
+                });
+                Install::Script(Script(steps))
+            }
+        };
+        gens.push(Gen { name: GEN_NAMES[gi].to_string(), install });
+        argv.push("-G".to_string());
+        argv.push(proc::gen_spec(&format!("{{gen{gi}}}"), &gen_args(gi)));
+    }
+    if c.st.dash_o() {
+        argv.push("-O".to_string());
+        argv.push("out".to_string());
+    }
+    (Scenario { tree, gens, argv, env: vec![] }, specs)
+}
+
+// ------------------------------------------------------------------------------------------------------------
+// Families
+
+struct Fam {
+    name: &'static str,
+    cases: Vec<CaseSpec>,
+}
+
+fn scripted(b: B) -> bool {
+    !matches!(b, B::Missing | B::NotExec)
+}
+
+/// The case without delay followed by every single-delay deviation (generators without a script have no
+/// delay points).
+fn with_delays(base: &CaseSpec, out: &mut Vec<CaseSpec>) {
+    out.push(base.clone());
+    for (gi, b) in base.gens.iter().enumerate() {
+        if scripted(*b) {
+            for point in 0..3 {
+                let mut c = base.clone();
+                c.delay = Some((gi, point));
+                out.push(c);
+            }
+        }
+    }
+}
+
+pub fn families(tier: &str) -> Vec<Box<dyn Family>> {
+    let thorough = tier == "thorough";
+    let case = |gens: Vec<B>, st: St, big: bool| CaseSpec { gens, st, big, delay: None };
+    let b8 = b8();
+    let truncs: Vec<B> = (0..trunc_len()).map(B::Trunc).collect();
+    let mut fams: Vec<Fam> = vec![];
+
+    // 1 generator: all rows + every truncation, each with every delay deviation
+    let mut one = vec![];
+    for b in B_ALL.iter().chain(truncs.iter()) {
+        with_delays(&case(vec![*b], St::Exists, false), &mut one);
+    }
+    for b in B_LARGE {
+        one.push(case(vec![b], St::Exists, false));
+    }
+    fams.push(Fam { name: "one-generator", cases: one });
+
+    // 2 generators: B x B
+    let mut two = vec![];
+    for a in B_ALL {
+        for b in B_ALL {
+            let base = case(vec![a, b], St::NoDashO, false);
+            if thorough || (b8.contains(&a) && b8.contains(&b)) {
+                with_delays(&base, &mut two);
+            } else {
+                two.push(base);
+            }
+            if thorough {
+                for st in ALL_STATES.iter().skip(1) {
+                    two.push(case(vec![a, b], *st, false));
+                }
+            }
+        }
+    }
+    fams.push(Fam { name: "two-generators", cases: two });
+
+    // 3 generators: B8^3
+    let mut three = vec![];
+    for a in b8 {
+        for b in b8 {
+            for c in b8 {
+                let base = case(vec![a, b, c], St::Exists, false);
+                if thorough {
+                    with_delays(&base, &mut three);
+                    for st in ALL_STATES {
+                        if st != St::Exists {
+                            three.push(case(vec![a, b, c], st, false));
+                        }
+                    }
+                } else {
+                    three.push(base);
+                }
+            }
+        }
+    }
+    fams.push(Fam { name: "three-generators", cases: three });
+
+    // output directory states for the rows whose reply names files
+    let mut states = vec![];
+    let neighbours: Vec<B> = if thorough { b8.to_vec() } else { vec![B::Ok1, B::Exit1] };
+    for w in B_WRITING {
+        for st in ALL_STATES {
+            if thorough {
+                with_delays(&case(vec![w], st, false), &mut states);
+            } else {
+                states.push(case(vec![w], st, false));
+            }
+            for n in &neighbours {
+                states.push(case(vec![w, *n], st, false));
+                states.push(case(vec![*n, w], st, false));
+            }
+        }
+    }
+    fams.push(Fam { name: "output-directory-states", cases: states });
+
+    // request larger than the pipe buffer
+    let mut big = vec![];
+    for b in B_ALL.iter().chain([B::NoReadReplyOk].iter()) {
+        if thorough {
+            with_delays(&case(vec![*b], St::Exists, true), &mut big);
+        } else {
+            big.push(case(vec![*b], St::Exists, true));
+        }
+    }
+    for b in B_LARGE {
+        big.push(case(vec![b], St::Exists, true));
+    }
+    for nr in [B::NoRead, B::Half, B::NoReadReplyOk] {
+        for n in b8 {
+            for pair in [vec![nr, n], vec![n, nr]] {
+                if thorough {
+                    with_delays(&case(pair, St::Exists, true), &mut big);
+                } else {
+                    big.push(case(pair, St::Exists, true));
+                }
+            }
+        }
+    }
+    fams.push(Fam { name: "big-payload", cases: big });
+
+    // every truncation next to a neighbour
+    let mut tn = vec![];
+    let neighbours: Vec<B> = if thorough { b8.to_vec() } else { vec![B::Ok1] };
+    for t in &truncs {
+        for n in &neighbours {
+            tn.push(case(vec![*t, *n], St::Exists, false));
+            tn.push(case(vec![*n, *t], St::Exists, false));
+        }
+    }
+    fams.push(Fam { name: "truncation-with-neighbour", cases: tn });
+
+    fams.into_iter().map(|f| Box::new(f) as Box<dyn Family>).collect()
+}
+
+// ------------------------------------------------------------------------------------------------------------
+// Oracle
+
+const WATCHDOG_S: u64 = 10;
+
+fn names(line: &str, gi: usize) -> bool {
+    line.contains(GEN_NAMES[gi])
+}
+
+impl Family for Fam {
+    fn name(&self) -> String {
+        self.name.to_string()
+    }
+    fn len(&self) -> u64 {
+        self.cases.len() as u64
+    }
+    fn hang_secs(&self) -> f64 {
+        90.0
+    }
+    /// Most of a run is waiting for child processes (and for explicit 50 ms delay points).
+    fn workers(&self) -> Option<usize> {
+        Some(32)
+    }
+    fn describe(&self, idx: u64) -> Value {
+        let c = &self.cases[idx as usize];
+        let (sc, specs) = scenario(c, "{work}", 0);
+        json!({
+            "generators": specs.iter().enumerate().map(|(gi, s)| json!({
+                "row": s.row, "fault": s.fault, "expected": format!("{:?}", s.verdict), "name": GEN_NAMES[gi],
+                "arguments": gen_args(gi), "files_named_by_reply": s.files.iter().map(|f| f.path.clone()).collect::<Vec<_>>(),
+            })).collect::<Vec<_>>(),
+            "output_state": format!("{:?}", c.st),
+            "payload": if c.big { "big (> 64 KiB request)" } else { "small" },
+            "delay_deviation": c.delay.map(|(g, p)| format!("generator {g} sleeps 50 ms {}", ["before reading stdin", "before replying", "before exiting"][p])),
+            "note": "'read N bytes' of the reads-half row is shown with N computed from an empty request; the run uses half of the real request length",
+            "scenario": sc.to_json(),
+        })
+    }
+    fn run(&self, idx: u64) -> CaseOut {
+        let c = &self.cases[idx as usize];
+        let fam = self.name;
+        let rendered = {
+            let (sc, _) = scenario(c, "{work}", 0);
+            sc.to_json().to_string()
+        };
+        let mut out = CaseOut::new(hash_str(&rendered));
+        let req_len = if c.gens.contains(&B::Half) { request_len(c.big) } else { 0 };
+        let scratch = Scratch::new();
+        let work = scratch.work().display().to_string();
+        let (sc, specs) = scenario(c, &work, req_len);
+        out.nontrivial = specs.iter().any(|s| s.verdict != Verdict::Healthy || !matches!(s.row.as_str(), "Ok0" | "Ok1" | "Ok3")) || c.st != St::Exists || c.big || c.delay.is_some();
+        let obs = proc::run_in(&scratch, &sc, Duration::from_secs(WATCHDOG_S));
+        out.validated = 1;
+        let rows: Vec<&str> = specs.iter().map(|s| s.row.as_str()).collect();
+        let input = format!("generators={rows:?} state={:?} big={} delay={:?} argv={:?}", c.st, c.big, c.delay, sc.argv);
+        let ctx = |obs: &proc::Obs| format!("{input} || {}", obs.summary().replace(&work, "{work}"));
+
+        let lines = obs.error_lines();
+        let per_gen: Vec<usize> = (0..specs.len()).map(|gi| lines.iter().filter(|l| names(l, gi)).count()).collect();
+        let other_lines: Vec<&String> = lines.iter().filter(|l| !(0..specs.len()).any(|gi| names(l, gi))).collect();
+        let started_mask: String = obs.gens.iter().map(|g| char::from_digit(g.started.min(9), 10).unwrap()).collect();
+        let changed = obs.changed_paths();
+        out.class = format!(
+            "exit={:?}{}/generr={:?}/othererr={}/started={}/changed={}",
+            obs.exit_code,
+            obs.signal.map(|s| format!("/signal={s}")).unwrap_or_default(),
+            per_gen,
+            other_lines.len(),
+            started_mask,
+            changed.len()
+        );
+
+        // 1. neither crashes nor hangs
+        if obs.timed_out {
+            let mut kinds: Vec<&str> = specs.iter().map(|s| s.fault).collect();
+            kinds.sort();
+            kinds.dedup();
+            out.violate(format!("c18/{fam}/hang/{}", kinds.join("+")), format!("slicec did not end within {WATCHDOG_S} s (killed by the watchdog). {}", ctx(&obs)));
+            return out;
+        }
+        if let Some(loc) = obs.panic_location() {
+            out.violate(format!("c18/{fam}/panic@{loc}"), format!("slicec panicked. {}", ctx(&obs)));
+            return out;
+        }
+        if obs.signal.is_some() || obs.exit_code.is_none() {
+            out.violate(format!("c18/{fam}/killed-by-signal"), format!("slicec was killed by signal {:?}. {}", obs.signal, ctx(&obs)));
+            return out;
+        }
+
+        // 2. one error naming every failed generator, none naming a healthy one
+        let any_fail = specs.iter().any(|s| s.verdict == Verdict::Fail);
+        let mut trusted = vec![false; specs.len()];
+        for (gi, s) in specs.iter().enumerate() {
+            match s.verdict {
+                Verdict::Fail => {
+                    if per_gen[gi] == 0 {
+                        out.violate(
+                            format!("c18/{fam}/failed-generator-not-reported/{}", s.fault),
+                            format!("expected exactly one error line naming generator {gi} ({}, row {}), found none. {}", GEN_NAMES[gi], s.row, ctx(&obs)),
+                        );
+                    } else if per_gen[gi] > 1 {
+                        out.violate(
+                            format!("c18/{fam}/failed-generator-reported-more-than-once/{}", s.fault),
+                            format!("expected exactly one error line naming generator {gi} ({}, row {}), found {}. {}", GEN_NAMES[gi], s.row, per_gen[gi], ctx(&obs)),
+                        );
+                    }
+                }
+                Verdict::Healthy => {
+                    trusted[gi] = true;
+                    if per_gen[gi] != 0 {
+                        out.violate(
+                            format!("c18/{fam}/healthy-generator-reported-as-failed"),
+                            format!("generator {gi} ({}, row {}) is healthy but {} error line(s) name it. {}", GEN_NAMES[gi], s.row, per_gen[gi], ctx(&obs)),
+                        );
+                    }
+                }
+                Verdict::Open => {
+                    // SOFT-1
+                    trusted[gi] = per_gen[gi] == 0;
+                    if per_gen[gi] > 1 {
+                        out.violate(
+                            format!("c18/{fam}/failed-generator-reported-more-than-once/{}", s.fault),
+                            format!("at most one error line may name generator {gi} ({}, row {}), found {}. {}", GEN_NAMES[gi], s.row, per_gen[gi], ctx(&obs)),
+                        );
+                    }
+                }
+            }
+        }
+
+        // 3. every startable generator is started exactly once and receives request ++ own arguments
+        let mut requests: Vec<(usize, Vec<u8>)> = vec![];
+        for (gi, s) in specs.iter().enumerate() {
+            let g = &obs.gens[gi];
+            if s.installed != Installed::Scripted {
+                continue;
+            }
+            if g.started != 1 {
+                out.violate(
+                    format!("c18/{fam}/generator-start-count"),
+                    format!("expected generator {gi} ({}, row {}) to be started exactly once whatever its neighbours do, observed {} starts. {}", GEN_NAMES[gi], s.row, g.started, ctx(&obs)),
+                );
+                continue;
+            }
+            if !g.done {
+                out.violate(format!("c18/{fam}/generator-did-not-finish"), format!("generator {gi} (row {}) never reached the end of its script (killed from outside?). {}", s.row, ctx(&obs)));
+            }
+            let stdin = g.stdin.clone().unwrap_or_default();
+            match s.read {
+                ReadMode::All => match proc::split_request(&stdin, &gen_args(gi)) {
+                    Some(req) => {
+                        if !proc::request_has_operation_name(req) {
+                            out.violate(format!("c18/{fam}/request-malformed"), format!("the request received by generator {gi} does not start with the operation name: {}. {}", proc::show_bytes(req), ctx(&obs)));
+                        }
+                        requests.push((gi, req.to_vec()));
+                    }
+                    None => out.violate(
+                        format!("c18/{fam}/stdin-does-not-end-with-own-arguments"),
+                        format!(
+                            "generator {gi} (row {}) must receive the request followed by the encoding of its own arguments {:?} = {}; its stdin ({} bytes) ends with {}. {}",
+                            s.row,
+                            gen_args(gi),
+                            proc::hex(&proc::encode_arguments(&gen_args(gi))),
+                            stdin.len(),
+                            proc::hex(&stdin[stdin.len().saturating_sub(24)..]),
+                            ctx(&obs)
+                        ),
+                    ),
+                },
+                ReadMode::Half => {
+                    let n = (req_len + proc::encode_arguments(&gen_args(gi)).len()) / 2;
+                    if stdin.len() != n {
+                        out.violate(format!("c18/{fam}/stdin-shorter-than-request"), format!("generator {gi} (row {}) asked for {n} bytes of its stdin and got {}. {}", s.row, stdin.len(), ctx(&obs)));
+                    }
+                }
+                ReadMode::Nothing => {}
+            }
+        }
+        for w in requests.windows(2) {
+            if w[0].1 != w[1].1 {
+                let first_diff = w[0].1.iter().zip(w[1].1.iter()).position(|(a, b)| a != b).unwrap_or(w[0].1.len().min(w[1].1.len()));
+                out.violate(
+                    format!("c18/{fam}/request-differs-between-generators"),
+                    format!("generators {} and {} received different requests ({} vs {} bytes, first difference at byte {first_diff}). {}", w[0].0, w[1].0, w[0].1.len(), w[1].1.len(), ctx(&obs)),
+                );
+            }
+        }
+        if let Some((_, req)) = requests.first() {
+            for (gi, s) in specs.iter().enumerate() {
+                if s.read == ReadMode::Half && obs.gens[gi].started == 1 {
+                    let got = obs.gens[gi].stdin.clone().unwrap_or_default();
+                    if got.len() <= req.len() && req[..got.len()] != got[..] {
+                        out.violate(format!("c18/{fam}/request-differs-between-generators"), format!("the bytes read by generator {gi} (row {}) are not a prefix of the request its neighbour received. {}", s.row, ctx(&obs)));
+                    }
+                }
+            }
+        }
+
+        // 4. files
+        let exists_dir = |rel: &str| rel.is_empty() || obs.before.get(rel).map(|e| e.kind == Kind::Dir).unwrap_or(false);
+        let mut allowed_changes: Vec<String> = vec![];
+        let mut soft_paths: Vec<(String, String)> = vec![]; // (path as sent, relative target) of files whose writing may legitimately fail
+        let mut abs_basenames: Vec<String> = vec![]; // SOFT-3: an absolute reply path of a trusted reply may land anywhere
+        let neighbour_tag = if any_fail { "with-failing-neighbour" } else { "all-healthy" };
+        for (gi, s) in specs.iter().enumerate() {
+            for f in &s.files {
+                let (rel, is_abs) = target_rel(c.st, &f.path, &work);
+                let before = obs.before.get(&rel);
+                let after = obs.after.get(&rel);
+                if !trusted[gi] {
+                    // files are written only from a successfully decoded reply
+                    if before != after {
+                        out.violate(
+                            format!("c18/{fam}/file-written-from-failed-generator/{}", s.fault),
+                            format!(
+                                "generator {gi} (row {}) failed, so {rel} must stay {}; observed {:?}. {}",
+                                s.row,
+                                if before.is_some() { "untouched" } else { "absent" },
+                                after.map(|e| proc::show_bytes(&e.contents)),
+                                ctx(&obs)
+                            ),
+                        );
+                    }
+                    continue;
+                }
+                allowed_changes.push(rel.clone());
+                let parent = rel.rsplit_once('/').map(|(p, _)| p.to_string()).unwrap_or_default();
+                let surely_writable = !is_abs && exists_dir(&parent);
+                let written = after.map(|e| e.kind == Kind::File && e.contents == f.contents.as_bytes()).unwrap_or(false);
+                if is_abs {
+                    // SOFT-3: nothing demanded about the place; a reported failure must mention the path
+                    soft_paths.push((f.path.clone(), rel.clone()));
+                    abs_basenames.push(rel.rsplit('/').next().unwrap_or(&rel).to_string());
+                    continue;
+                }
+                if surely_writable {
+                    if !written {
+                        out.violate(
+                            format!("c18/{fam}/healthy-generator-file-missing-or-wrong/{neighbour_tag}"),
+                            format!(
+                                "generator {gi} (row {}) sent a valid reply, so {rel} must exist with the {} bytes sent; observed {:?}. {}",
+                                s.row,
+                                f.contents.len(),
+                                after.map(|e| proc::show_bytes(&e.contents)),
+                                ctx(&obs)
+                            ),
+                        );
+                    }
+                } else {
+                    // SOFT-2: written, or reported
+                    soft_paths.push((f.path.clone(), rel.clone()));
+                    let p_sent = f.path.strip_prefix("./").unwrap_or(&f.path);
+                    let reported = lines.iter().any(|l| l.contains(p_sent));
+                    if !written && !reported {
+                        out.violate(
+                            format!("c18/{fam}/file-lost-silently"),
+                            format!("generator {gi} (row {}) sent a valid reply naming {}; the file was neither written to {rel} nor reported by an error mentioning its path. {}", s.row, f.path, ctx(&obs)),
+                        );
+                    }
+                }
+                // a file whose content is already identical is left untouched
+                if let (Some(b), Some(a)) = (before, after) {
+                    if b.kind == Kind::File && b.contents == f.contents.as_bytes() && (a.inode != b.inode || a.mtime_ns != b.mtime_ns || a.contents != b.contents) {
+                        out.violate(
+                            format!("c18/{fam}/identical-file-touched"),
+                            format!("{rel} already had the contents generator {gi} sent; expected inode {} / mtime {} to stay, observed inode {} / mtime {}. {}", b.inode, b.mtime_ns, a.inode, a.mtime_ns, ctx(&obs)),
+                        );
+                    }
+                }
+            }
+        }
+        // nothing else changes (directories created on the way to an allowed target are fine)
+        let new_dir = |p: &str| !obs.before.contains_key(p) && obs.after.get(p).map(|e| e.kind == Kind::Dir).unwrap_or(false);
+        let abs_file = |p: &str| abs_basenames.iter().any(|b| p == b || p.ends_with(&format!("/{b}")));
+        let unexpected: Vec<&String> = changed
+            .iter()
+            .filter(|p| {
+                let allowed = allowed_changes.iter().any(|a| a == *p || (a.starts_with(&format!("{p}/")) && new_dir(p)))
+                    || abs_file(p)
+                    || (new_dir(p) && changed.iter().any(|q| q.starts_with(&format!("{p}/")) && abs_file(q)));
+                !allowed
+            })
+            .collect();
+        if !unexpected.is_empty() {
+            out.violate(format!("c18/{fam}/unexpected-path-changed"), format!("paths were created / modified / removed that no trusted reply names: {unexpected:?}. {}", ctx(&obs)));
+        }
+
+        // 5. every error line is accounted for (SOFT-5), exit status
+        for l in &other_lines {
+            let ok = soft_paths.iter().any(|(sent, rel)| l.contains(sent.strip_prefix("./").unwrap_or(sent)) || l.contains(rel.as_str()));
+            if !ok {
+                out.violate(format!("c18/{fam}/unexplained-error-line"), format!("error line names neither a failed generator nor a file that could not be written: {l:?}. {}", ctx(&obs)));
+            }
+        }
+        let failed = obs.exit_code != Some(0);
+        if !lines.is_empty() && !failed {
+            out.violate(format!("c18/{fam}/exit-status-zero-despite-error"), format!("{} error line(s) were emitted but the exit status is 0. {}", lines.len(), ctx(&obs)));
+        }
+        if lines.is_empty() && failed {
+            out.violate(format!("c18/{fam}/exit-status-nonzero-without-error"), format!("exit status {:?} although no error line was emitted. {}", obs.exit_code, ctx(&obs)));
+        }
+        if any_fail && !failed {
+            out.violate(format!("c18/{fam}/exit-status-zero-despite-failed-generator"), format!("a generator failed but the exit status is 0. {}", ctx(&obs)));
+        }
+        out
+    }
 }
